@@ -225,6 +225,30 @@ M("C04", "errors_swallowed_silently", "console_application.py",
 M("C04", "status_zero_on_library_error", "console_application.py",
   "            status_code = self.exception_to_exit_code(e)", "            status_code = 0 if isinstance(e, CliKitException) else self.exception_to_exit_code(e)")
 
+# ---- C09 ------------------------------------------------------------------------------------
+M("C09", "quiet_read_from_all_tokens", "config/default_application_config.py",
+  '        if args.has_option_token("--quiet") or args.has_option_token("-q"):', '        if args.has_token("--quiet") or args.has_token("-q"):')
+M("C09", "option_tokens_ignore_dashdash", "args/argv_args.py",
+  '            itertools.takewhile(lambda arg: arg != "--", self.tokens)', '            self.tokens')
+M("C09", "quiet_leaves_error_output", "api/io/io.py",
+  "        self._output.set_quiet(quiet)\n        self._error_output.set_quiet(quiet)", "        self._output.set_quiet(quiet)")
+M("C09", "vv_is_verbose", "config/default_application_config.py",
+  '        elif args.has_option_token("-vv"):\n            io.set_verbosity(VERY_VERBOSE)', '        elif args.has_option_token("-vv"):\n            io.set_verbosity(VERBOSE)')
+M("C09", "ansi_not_forced", "config/default_application_config.py",
+  "            output_formatter = error_formatter = AnsiFormatter(style_set, True)", "            output_formatter = error_formatter = AnsiFormatter(style_set)")
+M("C09", "no_interaction_long_only", "config/default_application_config.py",
+  '        if args.has_option_token("--no-interaction") or args.has_option_token("-n"):', '        if args.has_option_token("--no-interaction"):')
+M("C09", "version_not_handled", "config/default_application_config.py",
+  "            version.render(event.io)\n\n            event.handled(True)", "            version.render(event.io)")
+M("C09", "help_short_only", "config/default_application_config.py",
+  '        if args.has_option_token("-h") or args.has_option_token("--help"):', '        if args.has_option_token("-h"):')
+M("C09", "no_ansi_only_stdout", "config/default_application_config.py",
+  "            output_formatter = error_formatter = PlainFormatter(style_set)", "            output_formatter = PlainFormatter(style_set)\n            error_formatter = AnsiFormatter(style_set)")
+M("C09", "noninteractive_still_reads", "api/io/input.py",
+  "        if not self._interactive:\n            return default\n\n        return self._stream.read_line(length=length)", "        return self._stream.read_line(length=length)")
+M("C09", "debug_gate_off_by_one", "api/io/output.py",
+  "        if flags & DEBUG:\n            return self._verbosity >= DEBUG", "        if flags & DEBUG:\n            return self._verbosity >= VERY_VERBOSE")
+
 
 def run_one(m, runs):
     prop, name, path, old, new, expect = m
